@@ -17,7 +17,7 @@ def protocol_units(tier):
         for case in range(12):
             out.append(("script", SIDECARS, H, "send_request_segment", f"{kind}.send_request#{case}", PROPS, tier,
                         {"kind": kind, "case": case}))
-        for entry in ("stale_loop", "other"):
+        for entry in ("stale_loop", "other", "contended"):
             for case in range(0, 12, 2):
                 out.append(("script", SIDECARS, H, "send_request_segment", f"{kind}.send_request@{entry}#{case}", PROPS,
                             tier, {"kind": kind, "case": case, "entry": entry}))
